@@ -48,11 +48,27 @@ fn ends_open(e: &E) -> bool {
 pub struct Renderer {
     pub style: Style,
     pub toks: Vec<String>,
+    /// C07: redundant parentheses around chosen subexpressions; one byte is
+    /// consumed per expression position, >= 200 means "wrap"
+    pub extra: Option<Vec<u8>>,
+    extra_pos: usize,
+    pub extra_used: usize,
 }
 
 impl Renderer {
     pub fn new(style: Style) -> Self {
-        Renderer { style, toks: vec![] }
+        Renderer { style, toks: vec![], extra: None, extra_pos: 0, extra_used: 0 }
+    }
+    fn want_extra(&mut self) -> bool {
+        if let Some(v) = &self.extra {
+            let b = v.get(self.extra_pos).copied().unwrap_or(0);
+            self.extra_pos += 1;
+            if b >= 200 {
+                self.extra_used += 1;
+                return true;
+            }
+        }
+        false
     }
     fn t(&mut self, s: &str) {
         self.toks.push(s.to_string());
@@ -104,6 +120,16 @@ impl Renderer {
 
     /// expression position (`Expression<"open">`)
     pub fn expr(&mut self, e: &E) {
+        if self.want_extra() {
+            self.t("(");
+            self.expr_inner(e);
+            self.t(")");
+        } else {
+            self.expr_inner(e)
+        }
+    }
+
+    fn expr_inner(&mut self, e: &E) {
         if self.style == Style::Full && !matches!(e, E::Int(_) | E::Bool(_) | E::Null | E::Var(_)) {
             self.wrapped(e)
         } else {
